@@ -737,6 +737,20 @@ def from_nested_to_multi_index(X, instance_index=None, time_index=None):
             _val if isinstance(_val, pd.Series) else pd.Series(_val, name=_lab)
             for _lab, _val in X.loc[instance_idx, :].iteritems()  # noqa
         ]
+        # a primitive value belongs to the first time point of the instance,
+        # whatever label the time index of the instance's series starts at
+        _first = [
+            _val.index[:1]
+            for _val in X.loc[instance_idx, :]
+            if isinstance(_val, pd.Series) and len(_val) > 0
+        ]
+        if len(_first) > 0:
+            instance = [
+                _val
+                if isinstance(_orig, (pd.Series, np.ndarray)) or len(_val) != 1
+                else _val.set_axis(_first[0])
+                for _val, _orig in zip(instance, X.loc[instance_idx, :])
+            ]
         # instance = [
         #     X.loc[instance_idx, _label]
         #     if isinstance(X.loc[instance_idx, _label], pd.Series)
